@@ -62,7 +62,8 @@ def length_ops(fn, owner, tables):
             tgt, src = n["args"]
         if tgt is not None:
             m, whole = member_root(tgt, owner)
-            if m in tables and whole and is_node(tgt) and "std::" in (tgt.get("ct") or tgt.get("t") or ""):
+            tt = (tgt.get("ct") or tgt.get("t") or "") if is_node(tgt) else ""
+            if m in tables and whole and "std::" in tt and not tt.rstrip().endswith("*"):
                 out.append((n, m, "=copy", show(src)))
     return out
 
